@@ -22,7 +22,7 @@ EXTRACT = ["C14"]
 BINS = ["c14"]
 NEEDS_CICADA = True
 ALLOWED_AXIOMS = []
-PINNED = ["C14_interp", "C14_parse_full", "C14_parse_partial", "C14_parse_partial_from", "C14_anchored", "C14_unbalanced_diagnosed",
+PINNED = ["C14_interp", "C14_parse_full", "C14_parse_partial", "C14_parse_partial_from", "C14_trim_cmd", "C14_anchored", "C14_unbalanced_diagnosed",
           "C14_anchor_sound", "C14_full"]
 TRUSTED = [
     "Coq 8.16.1 kernel (coqc; coqchk in thorough); vm_compute in Example witnesses, in C14_unbalanced_refuted and in the "
@@ -40,10 +40,12 @@ TRUSTED = [
 ASSUMES = [
     "C14_interp assumes the set -e flag constant during the run (exit_on_error w = e for all w): e = false and e = true "
     "(C15_sete) are both covered; a flag switched in the middle of a body by a step that yields no status is outside",
-    "the parser-correctness statement C14_parse_full is PROVED (unbounded, for all sufficiently large fuel) only for flat "
-    "scripts = any number of non-keyword command lines without indentation (C14_parse_partial, frag_flat); for scripts "
-    "with if / for / while blocks it is proved only on two computed instances (C14_parse_instances) and otherwise "
-    "carried by the correspondence layer L1b on every run",
+    "the parser-correctness statement C14_parse_full is PROVED (unbounded, any nesting depth, for all sufficiently large "
+    "fuel) for scripts of command lines, if/fi, if/else/fi and while/done in the newline spelling without indentation or "
+    "blank lines (C14_parse_partial, frag_block); `for`, `else if`, the `; then` / `; do` spelling, indentation and blank "
+    "lines are proved only on two computed instances (C14_parse_instances) and carried by layer L1b on every run",
+    "the pair tree carries trim(as_str); the code reads trim_cmd(as_str) (d2f4d24): equal unless the trimmed text ends in "
+    "a backslash (C14_trim_cmd); generated scripts hold no backslash",
     "while loops: the model bounds the iterations of one loop by n (OutOfFuel beyond); generated condition sequences end",
 ]
 
